@@ -80,8 +80,12 @@ def verify(d):
         res["patch_applies"] = rc == 0
         rc, out = sh("go build ./...", cwd=wt)
         res["builds"] = rc == 0
-        rc, out = sh(m["demo_cmd"], cwd=wt)
-        res["demo_with_patch"] = "fails (as intended)" if rc != 0 else "PASSES (not a demonstration)"
+        tries = 0
+        for tries in range(1, 1 + int(m.get("demo_tries", 3))):  # schedule-dependent demos may need a retry
+            rc, out = sh(m["demo_cmd"], cwd=wt)
+            if rc != 0:
+                break
+        res["demo_with_patch"] = ("fails (as intended), try %d" % tries) if rc != 0 else "PASSES (not a demonstration)"
         # existing tests, unedited: remove the demo first
         for dst in m.get("demo", {}).values():
             os.remove(os.path.join(wt, dst))
